@@ -155,3 +155,905 @@ Lemma enum_In {A} (l : list A) k x : In (k, x) (enum l) <-> nth_error l k = Some
 Proof.
   unfold enum. rewrite enum_In_gen. rewrite Nat.sub_0_r. split; [tauto|]. intro; split; auto. lia.
 Qed.
+
+(* ---------- insert-or-ignore tables ---------- *)
+Lemma has_txo_In l p i : has_txo l p i = true <-> exists r, In r l /\ r_txid r = p /\ r_pos r = i.
+Proof.
+  unfold has_txo. rewrite existsb_exists. split.
+  - intros [r [H1 H2]]. apply andb_true_iff in H2. destruct H2 as [A B].
+    apply N.eqb_eq in A. apply Nat.eqb_eq in B. eauto.
+  - intros [r [H1 [A B]]]. exists r. split; auto. subst. rewrite N.eqb_refl, Nat.eqb_refl. reflexivity.
+Qed.
+Lemma has_txi_In l p i : has_txi l p i = true <-> exists r, In r l /\ i_prev r = p /\ i_ppos r = i.
+Proof.
+  unfold has_txi. rewrite existsb_exists. split.
+  - intros [r [H1 H2]]. apply andb_true_iff in H2. destruct H2 as [A B].
+    apply N.eqb_eq in A. apply Nat.eqb_eq in B. eauto.
+  - intros [r [H1 [A B]]]. exists r. split; auto. subst. rewrite N.eqb_refl, Nat.eqb_refl. reflexivity.
+Qed.
+
+Lemma ins_txo_incl l r x : In x l -> In x (ins_txo l r).
+Proof. unfold ins_txo. destruct (has_txo l _ _); auto. intro. apply in_or_app. auto. Qed.
+Lemma ins_txo_has l r : has_txo (ins_txo l r) (r_txid r) (r_pos r) = true.
+Proof.
+  unfold ins_txo. destruct (has_txo l (r_txid r) (r_pos r)) eqn:E; auto.
+  apply has_txo_In. exists r. split; auto. apply in_or_app. right. simpl. auto.
+Qed.
+Lemma ins_txo_inv l r x : In x (ins_txo l r) -> In x l \/ x = r.
+Proof.
+  unfold ins_txo. destruct (has_txo l _ _); auto. intro H. apply in_app_or in H. destruct H as [H|[H|[]]]; auto.
+Qed.
+Lemma fold_ins_txo_incl rows : forall l x, In x l -> In x (fold_left ins_txo rows l).
+Proof. induction rows as [|r rows IH]; simpl; auto. intros. apply IH. apply ins_txo_incl. auto. Qed.
+Lemma has_txo_mono l l' p i : (forall x, In x l -> In x l') -> has_txo l p i = true -> has_txo l' p i = true.
+Proof. intros M H. apply has_txo_In in H. destruct H as [r [H1 H2]]. apply has_txo_In. exists r. split; auto. Qed.
+Lemma fold_ins_txo_has rows : forall l r, In r rows -> has_txo (fold_left ins_txo rows l) (r_txid r) (r_pos r) = true.
+Proof.
+  induction rows as [|r0 rows IH]; simpl; intros l r H; [contradiction|].
+  destruct H as [H|H].
+  - subst. eapply has_txo_mono. intros x Hx. apply fold_ins_txo_incl. exact Hx. apply ins_txo_has.
+  - apply IH. auto.
+Qed.
+Lemma fold_ins_txo_inv rows : forall l x, In x (fold_left ins_txo rows l) -> In x l \/ In x rows.
+Proof.
+  induction rows as [|r rows IH]; simpl; auto. intros l x H. apply IH in H. destruct H as [H|H]; auto.
+  apply ins_txo_inv in H. destruct H; auto.
+Qed.
+
+Lemma ins_txi_incl l r x : In x l -> In x (ins_txi l r).
+Proof. unfold ins_txi. destruct (has_txi l _ _); auto. intro. apply in_or_app. auto. Qed.
+Lemma ins_txi_has l r : has_txi (ins_txi l r) (i_prev r) (i_ppos r) = true.
+Proof.
+  unfold ins_txi. destruct (has_txi l (i_prev r) (i_ppos r)) eqn:E; auto.
+  apply has_txi_In. exists r. split; auto. apply in_or_app. right. simpl. auto.
+Qed.
+Lemma ins_txi_inv l r x : In x (ins_txi l r) -> In x l \/ x = r.
+Proof.
+  unfold ins_txi. destruct (has_txi l _ _); auto. intro H. apply in_app_or in H. destruct H as [H|[H|[]]]; auto.
+Qed.
+Lemma fold_ins_txi_incl rows : forall l x, In x l -> In x (fold_left ins_txi rows l).
+Proof. induction rows as [|r rows IH]; simpl; auto. intros. apply IH. apply ins_txi_incl. auto. Qed.
+Lemma has_txi_mono l l' p i : (forall x, In x l -> In x l') -> has_txi l p i = true -> has_txi l' p i = true.
+Proof. intros M H. apply has_txi_In in H. destruct H as [r [H1 H2]]. apply has_txi_In. exists r. split; auto. Qed.
+Lemma fold_ins_txi_has rows : forall l r, In r rows -> has_txi (fold_left ins_txi rows l) (i_prev r) (i_ppos r) = true.
+Proof.
+  induction rows as [|r0 rows IH]; simpl; intros l r H; [contradiction|].
+  destruct H as [H|H].
+  - subst. eapply has_txi_mono. intros x Hx. apply fold_ins_txi_incl. exact Hx. apply ins_txi_has.
+  - apply IH. auto.
+Qed.
+Lemma fold_ins_txi_inv rows : forall l x, In x (fold_left ins_txi rows l) -> In x l \/ In x rows.
+Proof.
+  induction rows as [|r rows IH]; simpl; auto. intros l x H. apply IH in H. destruct H as [H|H]; auto.
+  apply ins_txi_inv in H. destruct H; auto.
+Qed.
+
+Lemma upsert_inv l y x : In x (upsert_tx l y) -> In x l \/ x = y.
+Proof.
+  unfold upsert_tx. intro H. apply in_app_or in H. destruct H as [H|[H|[]]]; auto.
+  apply filter_In in H. tauto.
+Qed.
+Lemma ids_In S p : In p (ids S) <-> exists t h, In (t, h) S /\ t_id t = p.
+Proof.
+  unfold ids. rewrite in_map_iff. split.
+  - intros [[t h] [A B]]. simpl in A. eauto.
+  - intros [t [h [A B]]]. exists (t, h). auto.
+Qed.
+Lemma upsert_mem l y p : mem_id p (ids l) = true -> mem_id p (ids (upsert_tx l y)) = true.
+Proof.
+  rewrite !mem_id_In, !ids_In. intros [t [h [A B]]]. unfold upsert_tx.
+  destruct (N.eqb (t_id t) (t_id (fst y))) eqn:E.
+  - apply N.eqb_eq in E. destruct y as [ty hy]. exists ty, hy. split. apply in_or_app. right. simpl. auto. simpl in E. congruence.
+  - exists t, h. split; auto. apply in_or_app. left. apply filter_In. split; auto. simpl. rewrite E. reflexivity.
+Qed.
+Lemma upsert_mem_self l y : mem_id (t_id (fst y)) (ids (upsert_tx l y)) = true.
+Proof.
+  rewrite mem_id_In, ids_In. destruct y as [ty hy]. exists ty, hy. split; auto.
+  unfold upsert_tx. apply in_or_app. right. simpl. auto.
+Qed.
+
+(* ---------- saving a list of (transaction, resolved txi rows) ---------- *)
+Definition mine_of (rows : list txi_row) : bool := match rows with [] => false | _ => true end.
+Definition save_list (a : addr) (L : list (stx * list txi_row)) (d : db) : db :=
+  fold_left (fun d xr => save_one a d (fst xr) (snd xr)) L d.
+
+Lemma save_list_mono a L : forall d,
+  (forall r, In r (d_txo d) -> In r (d_txo (save_list a L d))) /\
+  (forall r, In r (d_txi d) -> In r (d_txi (save_list a L d))) /\
+  (forall p, mem_id p (ids (d_tx d)) = true -> mem_id p (ids (d_tx (save_list a L d))) = true).
+Proof.
+  induction L as [|xr L IH]; intro d; simpl; auto.
+  destruct (IH (save_one a d (fst xr) (snd xr))) as [A [B C]].
+  split; [|split]; intros.
+  - apply A. simpl. apply fold_ins_txo_incl. auto.
+  - apply B. simpl. apply fold_ins_txi_incl. auto.
+  - apply C. simpl. apply upsert_mem. auto.
+Qed.
+
+Lemma save_list_inv a L : forall d,
+  (forall r, In r (d_txo (save_list a L d)) ->
+     In r (d_txo d) \/ exists xr, In xr L /\ In r (new_txo a (mine_of (snd xr)) (fst (fst xr)))) /\
+  (forall r, In r (d_txi (save_list a L d)) -> In r (d_txi d) \/ exists xr, In xr L /\ In r (snd xr)) /\
+  (forall x, In x (d_tx (save_list a L d)) -> In x (d_tx d) \/ exists xr, In xr L /\ x = fst xr).
+Proof.
+  induction L as [|xr L IH]; intro d; simpl.
+  - split; [|split]; auto.
+  - destruct (IH (save_one a d (fst xr) (snd xr))) as [A [B C]].
+    split; [|split]; intros r H.
+    + apply A in H. destruct H as [H|[xr' [H1 H2]]].
+      * simpl in H. apply fold_ins_txo_inv in H. destruct H as [H|H]; auto.
+        right. exists xr. split; [simpl; auto | exact H].
+      * right. exists xr'. auto.
+    + apply B in H. destruct H as [H|[xr' [H1 H2]]].
+      * simpl in H. apply fold_ins_txi_inv in H. destruct H as [H|H]; auto. right. exists xr. auto.
+      * right. exists xr'. auto.
+    + apply C in H. destruct H as [H|[xr' [H1 H2]]].
+      * simpl in H. apply upsert_inv in H. destruct H as [H|H]; auto. right. exists xr. auto.
+      * right. exists xr'. auto.
+Qed.
+
+Lemma save_list_has a L : forall d xr, In xr L ->
+  (forall r, In r (new_txo a (mine_of (snd xr)) (fst (fst xr))) ->
+     has_txo (d_txo (save_list a L d)) (r_txid r) (r_pos r) = true) /\
+  (forall r, In r (snd xr) -> has_txi (d_txi (save_list a L d)) (i_prev r) (i_ppos r) = true) /\
+  mem_id (t_id (fst (fst xr))) (ids (d_tx (save_list a L d))) = true.
+Proof.
+  induction L as [|x0 L IH]; intros d xr H; [contradiction|].
+  simpl. destruct H as [H|H].
+  - subst x0. destruct (save_list_mono a L (save_one a d (fst xr) (snd xr))) as [A [B C]].
+    split; [|split].
+    + intros r Hr. eapply has_txo_mono. exact A. simpl. apply fold_ins_txo_has. exact Hr.
+    + intros r Hr. eapply has_txi_mono. exact B. simpl. apply fold_ins_txi_has. exact Hr.
+    + apply C. simpl. apply upsert_mem_self.
+  - apply IH. exact H.
+Qed.
+
+(* ---------- consistency of a server state ---------- *)
+Lemma nodup_ids_inj S : nodup_ids (ids S) = true ->
+  forall t h t' h', In (t, h) S -> In (t', h') S -> t_id t = t_id t' -> (t, h) = (t', h').
+Proof.
+  induction S as [|[t0 h0] S IH]; simpl; intros N t h t' h' I1 I2 E; [contradiction|].
+  apply andb_true_iff in N. destruct N as [N1 N2]. apply negb_true_iff in N1.
+  assert (Q: forall u g, In (u, g) S -> t_id u <> t_id t0).
+  { intros u g I Q. assert (mem_id (t_id t0) (ids S) = true); [|congruence].
+    apply mem_id_In. apply ids_In. exists u, g. auto. }
+  destruct I1 as [I1|I1], I2 as [I2|I2].
+  - congruence.
+  - inversion I1; subst. exfalso. eapply Q; eauto.
+  - inversion I2; subst. exfalso. eapply Q; eauto.
+  - eapply IH; eauto.
+Qed.
+
+Lemma ok_parts S : server_ok_b S = true ->
+  nodup_ids (ids S) = true /\ (forall t h, In (t, h) S -> t_id t <> 0%N) /\
+  (forall t h inp, In (t, h) S -> In inp (t_ins t) -> fst inp = 0%N \/ In (fst inp) (ids S)).
+Proof.
+  unfold server_ok_b. intro H. apply andb_true_iff in H. destruct H as [H C].
+  apply andb_true_iff in H. destruct H as [N Z]. apply negb_true_iff in Z.
+  split; [exact N|split].
+  - intros t h I E. assert (mem_id 0%N (ids S) = true); [|congruence].
+    apply mem_id_In. apply ids_In. exists t, h. auto.
+  - intros t h inp I J. unfold closed_b in C. rewrite forallb_forall in C. specialize (C _ I). simpl in C.
+    rewrite forallb_forall in C. specialize (C _ J). apply orb_true_iff in C. destruct C as [C|C].
+    + left. apply N.eqb_eq. exact C.
+    + right. apply mem_id_In. exact C.
+Qed.
+
+Lemma grows_sound S S' : grows_b S S' = true -> forall t h, In (t, h) S -> exists h', In (t, h') S'.
+Proof.
+  unfold grows_b. rewrite forallb_forall. intros G t h I. specialize (G _ I). simpl in G.
+  apply existsb_exists in G. destruct G as [[t' h'] [A B]]. simpl in B. apply tx_eqb_eq in B. subst. eauto.
+Qed.
+
+Lemma common_prefix_In l : forall r e, In e (common_prefix l r) -> In e l /\ In e r.
+Proof.
+  induction l as [|x l IH]; destruct r as [|y r]; simpl; intros e H; try contradiction.
+  destruct (entry_eqb x y) eqn:E; [|contradiction]. apply entry_eqb_eq in E. subst.
+  destruct H as [H|H]; auto. apply IH in H. tauto.
+Qed.
+
+Lemma server_hist_In S a e : In e (server_hist S a) <->
+  exists t h, In (t, h) S /\ touches S a t = true /\ e = (t_id t, h).
+Proof.
+  unfold server_hist. rewrite in_map_iff. split.
+  - intros [[t h] [A B]]. apply filter_In in B. simpl in *. destruct B. exists t, h. auto.
+  - intros [t [h [A [B C]]]]. exists (t, h). split; auto. apply filter_In. auto.
+Qed.
+
+Lemma ensure_gap_fields s c :
+  server (ensure_gap s c) = server s /\ tx_t (ensure_gap s c) = tx_t s /\ txo_t (ensure_gap s c) = txo_t s /\
+  txi_t (ensure_gap s c) = txi_t s /\ hists (ensure_gap s c) = hists s /\ pend (ensure_gap s c) = pend s /\
+  gaps (ensure_gap s c) = gaps s.
+Proof. unfold ensure_gap. destruct (Nat.eqb _ _); simpl; repeat split; reflexivity. Qed.
+
+(* ================================================================================================ *)
+Section Conv.
+Variable F : list stx.                       (* the server state the run ends with *)
+Hypothesis okF : server_ok_b F = true.
+
+Definition InF (t : tx) : Prop := exists h, In (t, h) F.
+Definition sub (S : list stx) : Prop := forall t h, In (t, h) S -> InF t.
+
+Lemma F_inj t t' : InF t -> InF t' -> t_id t = t_id t' -> t = t'.
+Proof.
+  intros [h A] [h' B] E. destruct (ok_parts _ okF) as [N _].
+  assert (Q := nodup_ids_inj F N _ _ _ _ A B E). congruence.
+Qed.
+Lemma F_no0 t : InF t -> t_id t <> 0%N.
+Proof. intros [h A]. destruct (ok_parts _ okF) as [_ [Z _]]. eapply Z; eauto. Qed.
+
+Definition cov (s : state) (a : addr) (t : tx) : Prop :=
+  (forall pos o, nth_error (t_outs t) pos = Some o -> pays a o = true -> has_txo (txo_t s) (t_id t) pos = true) /\
+  (forall k p i t' o, nth_error (t_ins t) k = Some (p, i) -> InF t' -> t_id t' = p ->
+     nth_error (t_outs t') i = Some o -> pays a o = true -> has_txi (txi_t s) p i = true) /\
+  mem_id (t_id t) (ids (tx_t s)) = true.
+
+Definition covered (s : state) (a : addr) (e : entry) : Prop := exists t, InF t /\ t_id t = fst e /\ cov s a t.
+
+Definition closedH (a : addr) (H : hist) (t : tx) : Prop :=
+  forall k p i t' o, nth_error (t_ins t) k = Some (p, i) -> InF t' -> t_id t' = p ->
+    nth_error (t_outs t') i = Some o -> pays a o = true -> mem_id p (map fst H) = true.
+
+Definition pend_ok (s : state) (a : addr) (st : stage) : Prop :=
+  match st with
+  | Fetched H B =>
+      (forall x, In x B -> InF (fst x)) /\
+      (forall e, In e H -> (exists t h, In (t, h) B /\ t_id t = fst e /\ closedH a H t) \/ covered s a e)
+  | Saved H => forall e, In e H -> covered s a e
+  | HistSet => True
+  end.
+
+Definition txo_sound (r : txo_row) : Prop :=
+  exists t, InF t /\ r_txid r = t_id t /\ nth_error (t_outs t) (r_pos r) = Some (r_out r) /\
+            r_type r = txo_type t (r_pos r) (r_out r).
+Definition txi_sound (i : txi_row) : Prop :=
+  exists t t' o, InF t /\ i_txid i = t_id t /\ nth_error (t_ins t) (i_ipos i) = Some (i_prev i, i_ppos i) /\
+                 InF t' /\ t_id t' = i_prev i /\ nth_error (t_outs t') (i_ppos i) = Some o /\ pays (i_addr i) o = true.
+
+Record Inv (s : state) : Prop := mkInv {
+  inv_sub : sub (server s);
+  inv_ok : server_ok_b (server s) = true;
+  inv_tx : forall x, In x (tx_t s) -> InF (fst x);
+  inv_txo : forall r, In r (txo_t s) -> txo_sound r;
+  inv_txi : forall i, In i (txi_t s) -> txi_sound i;
+  inv_hist : forall a e, In e (get_hist s a) -> covered s a e;
+  inv_pend : forall a st, aget (pend s) a = Some st -> pend_ok s a st
+}.
+
+Definition tables_le (s s' : state) : Prop :=
+  (forall r, In r (txo_t s) -> In r (txo_t s')) /\ (forall r, In r (txi_t s) -> In r (txi_t s')) /\
+  (forall p, mem_id p (ids (tx_t s)) = true -> mem_id p (ids (tx_t s')) = true).
+
+Lemma tables_le_refl s s' : txo_t s' = txo_t s -> txi_t s' = txi_t s -> tx_t s' = tx_t s -> tables_le s s'.
+Proof. intros A B C. unfold tables_le. rewrite A, B, C. auto. Qed.
+
+Lemma cov_mono s s' a t : tables_le s s' -> cov s a t -> cov s' a t.
+Proof.
+  intros [A [B C]] [X [Y Z]]. split; [|split].
+  - intros. eapply has_txo_mono. exact A. eauto.
+  - intros. eapply has_txi_mono. exact B. eauto.
+  - auto.
+Qed.
+Lemma covered_mono s s' a e : tables_le s s' -> covered s a e -> covered s' a e.
+Proof. intros L [t [A [B C]]]. exists t. split; [|split]; auto. eapply cov_mono; eauto. Qed.
+Lemma pend_ok_mono s s' a st : tables_le s s' -> pend_ok s a st -> pend_ok s' a st.
+Proof.
+  intros L. destruct st as [H B|H|]; simpl; auto.
+  - intros [X Y]. split; auto. intros e I. destruct (Y e I) as [Q|Q]; auto. right. eapply covered_mono; eauto.
+  - intros Y e I. eapply covered_mono; eauto.
+Qed.
+
+(* --- resolution of an input --- *)
+Lemma resolve_sound s R B inp o :
+  (forall x, In x B -> InF (fst x)) -> Inv s ->
+  resolve R B (txo_t s) (tx_t s) inp = Some o ->
+  exists t', InF t' /\ t_id t' = fst inp /\ nth_error (t_outs t') (snd inp) = Some o.
+Proof.
+  intros HB I. unfold resolve. destruct (mem_id (fst inp) R); [|discriminate].
+  destruct (find_tx B (fst inp)) as [t|] eqn:E1.
+  - intro H. apply find_tx_some in E1. destruct E1 as [E1 [h E2]]. exists t. split; [|split]; auto.
+    apply (HB _ E2).
+  - destruct (find_txo (txo_t s) (fst inp) (snd inp)) as [r|] eqn:E2.
+    + intro H. inversion H; subst. unfold find_txo in E2. apply find_some in E2. destruct E2 as [E2 E3].
+      apply andb_true_iff in E3. destruct E3 as [E3 E4]. apply N.eqb_eq in E3. apply Nat.eqb_eq in E4.
+      destruct (inv_txo s I r E2) as [t [A [B' [C D]]]]. exists t. split; [|split]; auto; congruence.
+    + destruct (find_tx (tx_t s) (fst inp)) as [t|] eqn:E3; [|discriminate].
+      intro H. apply find_tx_some in E3. destruct E3 as [E3 [h E4]]. exists t. split; [|split]; auto.
+      apply (inv_tx s I _ E4).
+Qed.
+
+Lemma resolve_complete s a H B p i t' o :
+  Inv s -> pend_ok s a (Fetched H B) ->
+  mem_id p (map fst H) = true -> InF t' -> t_id t' = p -> nth_error (t_outs t') i = Some o ->
+  resolve (map fst H) B (txo_t s) (tx_t s) (p, i) = Some o.
+Proof.
+  intros I [HB HH] M T' E O. unfold resolve. simpl. rewrite M.
+  destruct (find_tx B p) as [t|] eqn:E1.
+  - apply find_tx_some in E1. destruct E1 as [E1 [h E2]].
+    assert (t = t'). { apply F_inj; auto. apply (HB _ E2). congruence. } subst. exact O.
+  - apply mem_id_In in M. apply in_map_iff in M. destruct M as [e [M1 M2]].
+    destruct (HH e M2) as [[t [h [Q1 [Q2 _]]]]|[t [Q1 [Q2 [_ [_ Q3]]]]]].
+    + exfalso. apply (find_tx_none _ _ E1 _ _ Q1). congruence.
+    + assert (t = t'). { apply F_inj; auto. congruence. } subst t.
+      destruct (find_txo (txo_t s) p i) as [r|] eqn:E2.
+      * unfold find_txo in E2. apply find_some in E2. destruct E2 as [E2 E3].
+        apply andb_true_iff in E3. destruct E3 as [E3 E4]. apply N.eqb_eq in E3. apply Nat.eqb_eq in E4.
+        destruct (inv_txo s I r E2) as [t [A [B' [C D]]]].
+        assert (t = t'). { apply F_inj; auto. congruence. } subst t. congruence.
+      * apply mem_id_In in Q3. apply ids_In in Q3. destruct Q3 as [t [h [Q3 Q4]]].
+        destruct (find_tx_exists _ _ _ Q3) as [t5 Q5]. rewrite Q4, E in Q5. rewrite Q5.
+        apply find_tx_some in Q5. destruct Q5 as [Q5 [h5 Q6]].
+        assert (t5 = t'). { apply F_inj; auto. apply (inv_tx s I _ Q6). congruence. } subst. exact O.
+Qed.
+
+Lemma touches_pays S a t i o : nth_error (t_outs t) i = Some o -> pays a o = true -> touches S a t = true.
+Proof.
+  intros N P. unfold touches. apply orb_true_iff. left. apply existsb_exists. exists o. split; auto.
+  eapply nth_error_In; eauto.
+Qed.
+
+Lemma closedH_server s a t h : Inv s -> In (t, h) (server s) -> closedH a (server_hist (server s) a) t.
+Proof.
+  intros I T k p i t' o N T' E O P.
+  destruct (ok_parts _ (inv_ok s I)) as [_ [_ C]].
+  assert (J: In (p, i) (t_ins t)) by (eapply nth_error_In; eauto).
+  destruct (C _ _ _ T J) as [Z|Z]; simpl in Z.
+  - exfalso. apply (F_no0 t' T'). congruence.
+  - apply ids_In in Z. destruct Z as [t3 [h3 [Z1 Z2]]].
+    assert (t3 = t'). { apply F_inj; auto. apply (inv_sub s I _ _ Z1). congruence. } subst t3.
+    apply mem_id_In. apply in_map_iff. exists (p, h3). split; auto.
+    apply server_hist_In. exists t', h3. split; [|split]; auto.
+    + eapply touches_pays; eauto.
+    + congruence.
+Qed.
+
+Lemma inv_set_pend_other s p a : Inv s ->
+  (forall b st, aget p b = Some st -> b <> a -> aget (pend s) b = Some st) ->
+  (forall st, aget p a = Some st -> pend_ok s a st) ->
+  Inv (set_pend s p).
+Proof.
+  intros I O A. constructor.
+  - apply I.
+  - apply I.
+  - apply I.
+  - apply I.
+  - apply I.
+  - intros b e J. eapply covered_mono; [|apply (inv_hist s I b e J)]. apply tables_le_refl; reflexivity.
+  - simpl. intros b st G. eapply pend_ok_mono with (s := s). apply tables_le_refl; reflexivity.
+    destruct (addr_eqb b a) eqn:E.
+    + apply addr_eqb_eq in E. subst. auto.
+    + apply addr_eqb_neq in E. apply (inv_pend s I). auto.
+Qed.
+
+Lemma inv_begin s a st : Inv s -> Inv (begin s a st).
+Proof.
+  intro I. unfold begin.
+  destruct (hist_eqb (get_hist s a) st); auto.
+  match goal with |- Inv (match ?x with _ => _ end) => destruct x as [|e0 need] eqn:En end; auto.
+  apply inv_set_pend_other with (a := a); auto.
+  - intros b st0 G N. rewrite aget_aset_other in G; auto.
+  - intros st0 G. rewrite aget_aset_same in G. inversion G; subst; clear G. simpl. split.
+    + intros x J. unfold fetch_batch in J. apply in_flat_map in J. destruct J as [e [J1 J2]].
+      destruct (find_tx (server s) (fst e)) as [t|] eqn:E; [|contradiction].
+      destruct J2 as [J2|[]]. subst x. simpl. apply find_tx_some in E. destruct E as [_ [h E]].
+      apply (inv_sub s I _ _ E).
+    + intros e J.
+      destruct (mem_entry e (common_prefix (get_hist s a) (server_hist (server s) a))) eqn:M.
+      * right. apply mem_entry_In in M. apply common_prefix_In in M. destruct M as [M _].
+        apply (inv_hist s I a e M).
+      * left. assert (J' := J). apply server_hist_In in J'. destruct J' as [t0 [h0 [T0 [_ E0]]]].
+        destruct (find_tx_exists _ _ _ T0) as [t1 Q]. assert (Q' := Q).
+        apply find_tx_some in Q'. destruct Q' as [Q1 [h1 Q2]].
+        exists t1, (snd e). split; [|split].
+        -- unfold fetch_batch. apply in_flat_map. exists e. split.
+           ++ apply filter_In. split; auto. rewrite M. reflexivity.
+           ++ subst e. simpl. rewrite Q. simpl. auto.
+        -- subst e. simpl. exact Q1.
+        -- eapply closedH_server; eauto.
+Qed.
+
+Lemma new_txo_In a m t r : In r (new_txo a m t) ->
+  r_txid r = t_id t /\ nth_error (t_outs t) (r_pos r) = Some (r_out r) /\ r_type r = txo_type t (r_pos r) (r_out r).
+Proof.
+  unfold new_txo. intro H. apply in_flat_map in H. destruct H as [[k o] [H1 H2]]. simpl in H2.
+  destruct (store_out a m o); [|contradiction]. destruct H2 as [H2|[]]. subst r. simpl.
+  apply enum_In in H1. auto.
+Qed.
+Lemma new_txo_complete a m t pos o : nth_error (t_outs t) pos = Some o -> pays a o = true ->
+  In (mkTxo (t_id t) pos o (txo_type t pos o)) (new_txo a m t).
+Proof.
+  intros N P. unfold new_txo. apply in_flat_map. exists (pos, o). split. apply enum_In; auto.
+  simpl. unfold store_out. unfold pays in P. destruct (o_kind o); try discriminate.
+  rewrite P. simpl. auto.
+Qed.
+Lemma new_txi_In a R B txo txt t r : In r (new_txi a R B txo txt t) ->
+  exists o, i_txid r = t_id t /\ nth_error (t_ins t) (i_ipos r) = Some (i_prev r, i_ppos r) /\
+            resolve R B txo txt (i_prev r, i_ppos r) = Some o /\ pays a o = true /\ i_addr r = a.
+Proof.
+  unfold new_txi. intro H. apply in_flat_map in H. destruct H as [[k [p i]] [H1 H2]]. simpl in H2.
+  destruct (resolve R B txo txt (p, i)) as [o|] eqn:E; [|contradiction].
+  destruct (pays a o) eqn:P; [|contradiction]. destruct H2 as [H2|[]]. subst r. simpl.
+  apply enum_In in H1. exists o. auto.
+Qed.
+Lemma new_txi_complete a R B txo txt t k p i o : nth_error (t_ins t) k = Some (p, i) ->
+  resolve R B txo txt (p, i) = Some o -> pays a o = true ->
+  In (mkTxi (t_id t) k p i a) (new_txi a R B txo txt t).
+Proof.
+  intros N E P. unfold new_txi. apply in_flat_map. exists (k, (p, i)). split. apply enum_In; auto.
+  simpl. rewrite E, P. simpl. auto.
+Qed.
+
+Lemma save_tables_le s a H B : tables_le s (save s a H B).
+Proof.
+  unfold save, save_batch. simpl.
+  match goal with |- context [fold_left ?f ?L ?d] => change (fold_left f L d) with (save_list a L d);
+    destruct (save_list_mono a L d) as [X [Y Z]] end.
+  split; [|split]; simpl; auto.
+Qed.
+
+Lemma inv_save s a H B : Inv s -> aget (pend s) a = Some (Fetched H B) -> Inv (save s a H B).
+Proof.
+  intros I G. assert (PO := inv_pend s I a _ G). assert (PO' := PO). destruct PO' as [HB HH].
+  assert (LE := save_tables_le s a H B).
+  set (d := mkDb (tx_t s) (txo_t s) (txi_t s)).
+  set (L := map (fun x : stx => (x, new_txi a (map fst H) B (d_txo d) (d_tx d) (fst x))) B).
+  assert (SV: save s a H B = mkState (server s) (d_tx (save_list a L d)) (d_txo (save_list a L d))
+               (d_txi (save_list a L d)) (aset (hists s) a []) (aset (pend s) a (Saved H)) (gaps s) (kcs s)) by reflexivity.
+  destruct (save_list_inv a L d) as [V1 [V2 V3]].
+  assert (InL: forall xr, In xr L -> In (fst xr) B /\ snd xr = new_txi a (map fst H) B (txo_t s) (tx_t s) (fst (fst xr))).
+  { intros xr J. unfold L in J. apply in_map_iff in J. destruct J as [x [J1 J2]]. subst xr. simpl. auto. }
+  constructor.
+  - rewrite SV. simpl. apply I.
+  - rewrite SV. simpl. apply I.
+  - rewrite SV. simpl. intros x J. apply V3 in J. destruct J as [J|[xr [J1 J2]]].
+    + apply (inv_tx s I _ J).
+    + subst x. apply HB. apply InL. auto.
+  - rewrite SV. simpl. intros r J. apply V1 in J. destruct J as [J|[xr [J1 J2]]].
+    + apply (inv_txo s I _ J).
+    + apply new_txo_In in J2. destruct J2 as [A [B' C]]. exists (fst (fst xr)). split; [|split; [|split]]; auto.
+      apply HB. apply InL. auto.
+  - rewrite SV. simpl. intros r J. apply V2 in J. destruct J as [J|[xr [J1 J2]]].
+    + apply (inv_txi s I _ J).
+    + destruct (InL _ J1) as [Q1 Q2]. rewrite Q2 in J2. apply new_txi_In in J2.
+      destruct J2 as [o [A [B' [C [D E]]]]].
+      destruct (resolve_sound s _ _ _ _ HB I C) as [t' [T1 [T2 T3]]]. simpl in T2, T3.
+      exists (fst (fst xr)), t', o. rewrite E.
+      split; [apply HB; exact Q1|]. split; [exact A|]. split; [exact B'|]. split; [exact T1|].
+      split; [exact T2|]. split; [exact T3|exact D].
+  - intros b e J. destruct (addr_eqb a b) eqn:E.
+    + apply addr_eqb_eq in E. subst b. rewrite SV in J. unfold get_hist in J. simpl in J.
+      rewrite addr_eqb_refl in J. contradiction.
+    + apply addr_eqb_neq in E. eapply covered_mono. exact LE. apply (inv_hist s I b e).
+      rewrite SV in J. unfold get_hist in *. simpl in J. rewrite E' in J || idtac.
+      assert (Q: aget (aset (hists s) a []) b = aget (hists s) b) by (apply aget_aset_other; auto).
+      unfold aset in Q. simpl in Q. simpl in J. rewrite Q in J. exact J.
+  - intros b st0 G0. destruct (addr_eqb a b) eqn:E.
+    + apply addr_eqb_eq in E. subst b. rewrite SV in G0. simpl in G0. rewrite addr_eqb_refl in G0.
+      inversion G0; subst st0; clear G0. simpl. intros e J.
+      destruct (HH e J) as [[t [h [Q1 [Q2 Q3]]]]|Q].
+      * exists t. split; [apply (HB _ Q1)|split; [exact Q2|]].
+        set (xr := ((t, h), new_txi a (map fst H) B (d_txo d) (d_tx d) t)).
+        assert (JL: In xr L). { unfold L. apply in_map_iff. exists (t, h). split; auto. }
+        destruct (save_list_has a L d xr JL) as [W1 [W2 W3]].
+        rewrite SV. split; [|split]; simpl.
+        -- intros pos o N P. apply (W1 _ (new_txo_complete a _ t pos o N P)).
+        -- intros k p i t' o N T' E' O P.
+           assert (M := Q3 k p i t' o N T' E' O P).
+           assert (R := resolve_complete s a H B p i t' o I PO M T' E' O).
+           apply (W2 _ (new_txi_complete a _ _ _ _ t k p i o N R P)).
+        -- exact W3.
+      * eapply covered_mono; eauto.
+    + apply addr_eqb_neq in E. eapply pend_ok_mono. exact LE. apply (inv_pend s I).
+      rewrite SV in G0. simpl in G0.
+      assert (Q: aget (aset (pend s) a (Saved H)) b = aget (pend s) b) by (apply aget_aset_other; auto).
+      unfold aset in Q. simpl in Q. rewrite Q in G0. exact G0.
+Qed.
+
+Lemma inv_ext s s' : Inv s -> server s' = server s -> tx_t s' = tx_t s -> txo_t s' = txo_t s ->
+  txi_t s' = txi_t s -> hists s' = hists s -> pend s' = pend s -> Inv s'.
+Proof.
+  intros I A B C D E G.
+  assert (LE: tables_le s s') by (apply tables_le_refl; auto).
+  constructor.
+  - rewrite A. apply I.
+  - rewrite A. apply I.
+  - rewrite B. apply I.
+  - rewrite C. apply I.
+  - rewrite D. apply I.
+  - intros b e J. eapply covered_mono. exact LE. apply (inv_hist s I). unfold get_hist in *. rewrite E in J. exact J.
+  - intros b st J. eapply pend_ok_mono. exact LE. apply (inv_pend s I). rewrite G in J. exact J.
+Qed.
+
+Lemma inv_ensure_gap s c : Inv s -> Inv (ensure_gap s c).
+Proof.
+  intro I. destruct (ensure_gap_fields s c) as [A [B [C [D [E [G _]]]]]]. eapply inv_ext; eauto.
+Qed.
+
+Lemma aget_aset_if {V} (l : list (addr * V)) a b v :
+  aget (aset l a v) b = if addr_eqb a b then Some v else aget l b.
+Proof.
+  destruct (addr_eqb a b) eqn:E.
+  - apply addr_eqb_eq in E. subst. apply aget_aset_same.
+  - apply aget_aset_other. apply addr_eqb_neq. exact E.
+Qed.
+
+Lemma inv_sethist s a H : Inv s -> aget (pend s) a = Some (Saved H) -> Inv (set_history s a H).
+Proof.
+  intros I G. assert (PO := inv_pend s I a _ G). simpl in PO.
+  assert (LE: tables_le s (set_history s a H)) by (apply tables_le_refl; reflexivity).
+  constructor; try apply I.
+  - intros b e J. eapply covered_mono. exact LE. unfold get_hist, set_history in J. cbn [hists] in J.
+    rewrite aget_aset_if in J. destruct (addr_eqb a b) eqn:E.
+    + apply addr_eqb_eq in E. subst b. apply PO. exact J.
+    + apply (inv_hist s I b e). exact J.
+  - intros b st J. unfold set_history in J. cbn [pend] in J. rewrite aget_aset_if in J.
+    destruct (addr_eqb a b) eqn:E.
+    + inversion J; subst. exact Logic.I.
+    + eapply pend_ok_mono. exact LE. apply (inv_pend s I). exact J.
+Qed.
+
+Lemma inv_step s o s' : step s o = Some s' -> sub (server s') -> Inv s -> Inv s'.
+Proof.
+  intros ST SB I. destruct o as [S'|a st|a|a|a|c]; simpl in ST.
+  - destruct (server_ok_b S' && grows_b (server s) S') eqn:E; [|discriminate]. inversion ST; subst; clear ST.
+    apply andb_true_iff in E. destruct E as [E1 E2]. simpl in SB.
+    constructor.
+    + exact SB.
+    + exact E1.
+    + apply I.
+    + apply I.
+    + apply I.
+    + intros b e J. eapply covered_mono; [|apply (inv_hist s I b e J)]. apply tables_le_refl; reflexivity.
+    + intros b st J. eapply pend_ok_mono; [|apply (inv_pend s I b st J)]. apply tables_le_refl; reflexivity.
+  - destruct (known s a); [|discriminate]. destruct (aget (pend s) a); [discriminate|].
+    inversion ST; subst. apply inv_begin. exact I.
+  - destruct (aget (pend s) a) as [[H B|H|]|] eqn:G; try discriminate. inversion ST; subst.
+    apply inv_save; auto.
+  - destruct (aget (pend s) a) as [[H B|H|]|] eqn:G; try discriminate. inversion ST; subst.
+    apply inv_sethist; auto.
+  - destruct (aget (pend s) a) as [[H B|H|]|] eqn:G; try discriminate.
+    destruct (chain_of a) as [c|]; [|discriminate]. inversion ST; subst.
+    apply inv_ensure_gap. apply inv_set_pend_other with (a := a); auto.
+    + intros b st J N. rewrite aget_adel_other in J; auto.
+    + intros st J. rewrite aget_adel_same in J. discriminate.
+  - inversion ST; subst. apply inv_ensure_gap. exact I.
+Qed.
+
+Lemma inv_init g : Inv (init g).
+Proof.
+  constructor; simpl.
+  - intros t h [].
+  - reflexivity.
+  - intros x [].
+  - intros r [].
+  - intros i [].
+  - intros a e [].
+  - intros a st J. discriminate.
+Qed.
+
+End Conv.
+
+(* ================================================================================================ *)
+(* runs *)
+Lemma begin_server s a st : server (begin s a st) = server s.
+Proof.
+  unfold begin. destruct (hist_eqb _ _); auto.
+  match goal with |- server (match ?x with _ => _ end) = _ => destruct x end; reflexivity.
+Qed.
+
+Lemma step_server s o s' : step s o = Some s' ->
+  server s' = server s \/
+  (exists S', o = Server S' /\ server s' = S' /\ server_ok_b S' = true /\ grows_b (server s) S' = true).
+Proof.
+  intro ST. destruct o as [S'|a st|a|a|a|c]; simpl in ST.
+  - destruct (server_ok_b S' && grows_b (server s) S') eqn:E; [|discriminate]. inversion ST; subst.
+    apply andb_true_iff in E. destruct E. right. exists S'. simpl. auto.
+  - destruct (known s a); [|discriminate]. destruct (aget (pend s) a); [discriminate|].
+    inversion ST; subst. left. apply begin_server.
+  - destruct (aget (pend s) a) as [[H B|H|]|]; try discriminate. inversion ST; subst. left. reflexivity.
+  - destruct (aget (pend s) a) as [[H B|H|]|]; try discriminate. inversion ST; subst. left. reflexivity.
+  - destruct (aget (pend s) a) as [[H B|H|]|]; try discriminate.
+    destruct (chain_of a); [|discriminate]. inversion ST; subst. left.
+    destruct (ensure_gap_fields (set_pend s (adel (pend s) a)) n) as [A _]. rewrite A. reflexivity.
+  - inversion ST; subst. left. destruct (ensure_gap_fields s c) as [A _]. exact A.
+Qed.
+
+Lemma run_grows ops : forall s s', run s ops = Some s' ->
+  (server_ok_b (server s) = true -> server_ok_b (server s') = true) /\
+  (forall t h, In (t, h) (server s) -> exists h', In (t, h') (server s')).
+Proof.
+  induction ops as [|o ops IH]; simpl; intros s s' R.
+  - inversion R; subst. split; eauto.
+  - destruct (step s o) as [s1|] eqn:ST; [|discriminate].
+    destruct (IH _ _ R) as [A B]. destruct (step_server _ _ _ ST) as [E|[S' [_ [E1 [E2 E3]]]]].
+    + rewrite E in *. split; auto.
+    + split.
+      * intros _. apply A. rewrite E1. exact E2.
+      * intros t h J. destruct (grows_sound _ _ E3 _ _ J) as [h1 J1]. rewrite <- E1 in J1. eapply B; eauto.
+Qed.
+
+Lemma inv_run ops : forall s s', run s ops = Some s' -> server_ok_b (server s') = true ->
+  Inv (server s') s -> Inv (server s') s'.
+Proof.
+  induction ops as [|o ops IH]; simpl; intros s s' R OK I.
+  - inversion R; subst. exact I.
+  - destruct (step s o) as [s1|] eqn:ST; [|discriminate].
+    apply (IH s1 s' R OK). apply (inv_step (server s') OK s o s1 ST); auto.
+    intros t h J. destruct (run_grows _ _ _ R) as [_ B]. destruct (B _ _ J) as [h' J']. exists h'. exact J'.
+Qed.
+
+Lemma reach_inv g ops s : run (init g) ops = Some s -> server_ok_b (server s) = true /\ Inv (server s) s.
+Proof.
+  intro R. destruct (run_grows _ _ _ R) as [A _].
+  assert (OK: server_ok_b (server s) = true) by (apply A; reflexivity).
+  split; auto. eapply inv_run; eauto. apply inv_init.
+Qed.
+
+Definition quiescent (s : state) : Prop := forall a, aget (pend s) a = None.
+Definition in_sync (s : state) : Prop :=
+  forall a, known s a = true -> incl (server_hist (server s) a) (get_hist s a).
+
+Lemma pays_PKH a o : o_kind o = PKH a -> pays a o = true.
+Proof. unfold pays. intro E. rewrite E. apply addr_eqb_refl. Qed.
+Lemma pays_inv a o : pays a o = true -> o_kind o = PKH a.
+Proof. unfold pays. destruct (o_kind o); try discriminate. intro E. apply addr_eqb_eq in E. congruence. Qed.
+
+Section Converged.
+Variables (g : list (N * nat)) (ops : list op) (s : state).
+Hypothesis R : run (init g) ops = Some s.
+Hypothesis SY : in_sync s.
+
+Let okF := proj1 (reach_inv g ops s R).
+Let I := proj2 (reach_inv g ops s R).
+
+Lemma self_sub t h : In (t, h) (server s) -> InF (server s) t.
+Proof. intro J. exists h. exact J. Qed.
+
+Lemma conv_cov a t h : known s a = true -> In (t, h) (server s) -> touches (server s) a t = true ->
+  cov (server s) s a t.
+Proof.
+  intros K T TO.
+  assert (J: In (t_id t, h) (get_hist s a)).
+  { apply SY; auto. apply server_hist_In. exists t, h. auto. }
+  destruct (inv_hist _ _ I a _ J) as [t2 [A [B C]]]. simpl in B.
+  assert (t2 = t). { apply (F_inj _ okF); auto. eapply self_sub; eauto. } subst. exact C.
+Qed.
+
+(* every output paying a generated address is recorded *)
+Lemma conv_txo t h pos o a : In (t, h) (server s) -> nth_error (t_outs t) pos = Some o -> o_kind o = PKH a ->
+  known s a = true -> has_txo (txo_t s) (t_id t) pos = true.
+Proof.
+  intros T N P K. apply pays_PKH in P.
+  destruct (conv_cov a t h K T (touches_pays _ _ _ _ _ N P)) as [A _]. eapply A; eauto.
+Qed.
+
+(* every spend of such an output by a transaction the server knows is recorded *)
+Lemma conv_txi t h k p i t' h' o a : In (t, h) (server s) -> nth_error (t_ins t) k = Some (p, i) ->
+  In (t', h') (server s) -> t_id t' = p -> nth_error (t_outs t') i = Some o -> o_kind o = PKH a ->
+  known s a = true -> has_txi (txi_t s) p i = true.
+Proof.
+  intros T N T' E O P K. apply pays_PKH in P.
+  assert (TO: touches (server s) a t = true).
+  { unfold touches. apply orb_true_iff. right. apply existsb_exists. exists (p, i). split.
+    eapply nth_error_In; eauto. unfold spends_from, out_at. simpl.
+    destruct (find_tx_exists _ _ _ T') as [t2 Q]. rewrite E in Q. rewrite Q.
+    apply find_tx_some in Q. destruct Q as [Q1 [h2 Q2]].
+    assert (t2 = t'). { apply (F_inj _ okF). eapply self_sub; eauto. eapply self_sub; eauto. congruence. }
+    subst. rewrite O. exact P. }
+  destruct (conv_cov a t h K T TO) as [_ [B _]]. eapply B; eauto. eapply self_sub; eauto.
+Qed.
+
+Lemma row_mine_inv cs r : row_mine s cs r = true ->
+  exists a, o_kind (r_out r) = PKH a /\ known s a = true /\ in_chains cs a = true.
+Proof.
+  unfold row_mine. destruct (o_kind (r_out r)) as [a| |]; try discriminate. intro H.
+  apply andb_true_iff in H. destruct H. exists a. auto.
+Qed.
+
+Lemma all_outputs_In S r : In r (all_outputs S) <->
+  exists t h, In (t, h) S /\ nth_error (t_outs t) (r_pos r) = Some (r_out r) /\ r_txid r = t_id t /\
+              r_type r = txo_type t (r_pos r) (r_out r).
+Proof.
+  unfold all_outputs. rewrite in_flat_map. split.
+  - intros [[t h] [A B]]. simpl in B. apply in_map_iff in B. destruct B as [[k o] [B1 B2]]. subst r. simpl.
+    apply enum_In in B2. exists t, h. auto.
+  - intros [t [h [A [B [C D]]]]]. exists (t, h). split; auto. simpl. apply in_map_iff.
+    exists (r_pos r, r_out r). split. destruct r; simpl in *. subst. reflexivity. apply enum_In. exact B.
+Qed.
+
+Lemma spent_in_true S p i : spent_in S p i = true <->
+  exists t h k, In (t, h) S /\ nth_error (t_ins t) k = Some (p, i).
+Proof.
+  unfold spent_in. rewrite existsb_exists. split.
+  - intros [[t h] [A B]]. simpl in B. apply existsb_exists in B. destruct B as [[p' i'] [B1 B2]]. simpl in B2.
+    apply andb_true_iff in B2. destruct B2 as [B2 B3]. apply N.eqb_eq in B2. apply Nat.eqb_eq in B3. subst.
+    apply In_nth_error in B1. destruct B1 as [k B1]. exists t, h, k. auto.
+  - intros [t [h [k [A B]]]]. exists (t, h). split; auto. simpl. apply existsb_exists. exists (p, i). split.
+    eapply nth_error_In; eauto. simpl. rewrite N.eqb_refl, Nat.eqb_refl. reflexivity.
+Qed.
+
+(* the unspent set the wallet reports is exactly the specification set *)
+Lemma conv_utxos cs r : In r (utxos s cs) <-> In r (spec_utxos (server s) s cs).
+Proof.
+  unfold utxos, spec_utxos. rewrite !filter_In. split.
+  - intros [A B]. apply andb_true_iff in B. destruct B as [M U]. apply negb_true_iff in U.
+    destruct (inv_txo _ _ I r A) as [t [[h T] [E [O TY]]]].
+    split.
+    + apply all_outputs_In. exists t, h. auto.
+    + rewrite M. simpl. apply negb_true_iff. destruct (spent_in (server s) (r_txid r) (r_pos r)) eqn:SP; auto.
+      exfalso. apply spent_in_true in SP. destruct SP as [t2 [h2 [k [T2 N2]]]].
+      destruct (row_mine_inv _ _ M) as [a [P [K _]]].
+      assert (has_txi (txi_t s) (r_txid r) (r_pos r) = true); [|congruence].
+      apply (conv_txi t2 h2 k (r_txid r) (r_pos r) t h (r_out r) a T2 N2 T (eq_sym E) O P K).
+  - intros [A B]. apply andb_true_iff in B. destruct B as [M U]. apply negb_true_iff in U.
+    apply all_outputs_In in A. destruct A as [t [h [T [O [E TY]]]]].
+    destruct (row_mine_inv _ _ M) as [a [P [K _]]].
+    assert (HT := conv_txo t h _ _ a T O P K). apply has_txo_In in HT. destruct HT as [r' [R1 [R2 R3]]].
+    destruct (inv_txo _ _ I r' R1) as [t2 [T2 [E2 [O2 TY2]]]].
+    assert (t2 = t). { apply (F_inj _ okF); auto. eapply self_sub; eauto. congruence. } subst t2.
+    assert (r' = r).
+    { destruct r, r'; simpl in *. subst. rewrite O in O2. inversion O2; subst. reflexivity. }
+    subst r'. split; auto. rewrite M. simpl. apply negb_true_iff.
+    destruct (has_txi (txi_t s) (r_txid r) (r_pos r)) eqn:HI; auto. exfalso.
+    apply has_txi_In in HI. destruct HI as [i [I1 [I2 I3]]].
+    destruct (inv_txi _ _ I i I1) as [t3 [t4 [o4 [[h3 T3] [_ [N3 _]]]]]].
+    assert (spent_in (server s) (r_txid r) (r_pos r) = true); [|congruence].
+    apply spent_in_true. exists t3, h3, (i_ipos i). split; auto. rewrite N3. congruence.
+Qed.
+
+End Converged.
+
+(* ================================================================================================ *)
+(* rows only grow *)
+Lemma known_ensure_gap s c a : known s a = true -> known (ensure_gap s c) a = true.
+Proof.
+  unfold ensure_gap. destruct (Nat.eqb _ _); auto. destruct a as [c' n|k]; simpl; auto.
+  intro H. apply Nat.ltb_lt in H. apply Nat.ltb_lt.
+  destruct (N.eq_dec c c') as [E|E].
+  - subst. rewrite nget_nset_same. lia.
+  - rewrite nget_nset_other; auto.
+Qed.
+
+Definition state_le (s s' : state) : Prop :=
+  tables_le s s' /\ (forall a, known s a = true -> known s' a = true).
+
+Lemma begin_fields s a st :
+  tx_t (begin s a st) = tx_t s /\ txo_t (begin s a st) = txo_t s /\ txi_t (begin s a st) = txi_t s /\
+  hists (begin s a st) = hists s /\ kcs (begin s a st) = kcs s /\ gaps (begin s a st) = gaps s.
+Proof.
+  unfold begin. destruct (hist_eqb _ _); auto 10.
+  match goal with |- context [match ?x with _ => _ end] => destruct x end; simpl; auto 10.
+Qed.
+
+Lemma step_le s o s' : step s o = Some s' -> state_le s s'.
+Proof.
+  intro ST. destruct o as [S'|a st|a|a|a|c]; simpl in ST.
+  - destruct (server_ok_b S' && grows_b (server s) S'); [|discriminate]. inversion ST; subst.
+    split; auto. apply tables_le_refl; reflexivity.
+  - destruct (known s a); [|discriminate]. destruct (aget (pend s) a); [discriminate|]. inversion ST; subst.
+    destruct (begin_fields s a st) as [A [B [C [D [E G]]]]]. split.
+    + apply tables_le_refl; auto.
+    + intros b. unfold known. rewrite E. auto.
+  - destruct (aget (pend s) a) as [[H B|H|]|]; try discriminate. inversion ST; subst. split; auto.
+    apply save_tables_le.
+  - destruct (aget (pend s) a) as [[H B|H|]|]; try discriminate. inversion ST; subst. split; auto.
+    apply tables_le_refl; reflexivity.
+  - destruct (aget (pend s) a) as [[H B|H|]|]; try discriminate.
+    destruct (chain_of a); [|discriminate]. inversion ST; subst.
+    destruct (ensure_gap_fields (set_pend s (adel (pend s) a)) n) as [_ [B [C [D _]]]]. split.
+    + apply tables_le_refl; auto.
+    + intros b K. apply known_ensure_gap. exact K.
+  - inversion ST; subst. destruct (ensure_gap_fields s c) as [_ [B [C [D _]]]]. split.
+    + apply tables_le_refl; auto.
+    + intros b K. apply known_ensure_gap. exact K.
+Qed.
+
+Lemma state_le_trans s1 s2 s3 : state_le s1 s2 -> state_le s2 s3 -> state_le s1 s3.
+Proof.
+  intros [[A [B C]] D] [[A' [B' C']] D']. split; [split; [|split]|]; auto.
+Qed.
+
+Lemma run_le ops : forall s s', run s ops = Some s' -> state_le s s'.
+Proof.
+  induction ops as [|o ops IH]; simpl; intros s s' R.
+  - inversion R; subst. split; auto. apply tables_le_refl; reflexivity.
+  - destruct (step s o) as [s1|] eqn:ST; [|discriminate].
+    eapply state_le_trans. eapply step_le; eauto. apply IH. exact R.
+Qed.
+
+(* ================================================================================================ *)
+(* the address gap *)
+Lemma lead_le u k f : lead u k f <= f.
+Proof. revert k. induction f; intro k; simpl; auto. destruct k; [lia|]. destruct (u k); [lia|]. specialize (IHf k). lia. Qed.
+
+Lemma lead_shrink u : forall g k e, lead u k g = e -> lead u k e = e.
+Proof.
+  induction g as [|g IH]; intros k e H; simpl in H.
+  - subst. destruct k; reflexivity.
+  - destruct k as [|k]; [subst; reflexivity|]. destruct (u k) eqn:U.
+    + subst. reflexivity.
+    + subst e. simpl. rewrite U. f_equal. apply IH. reflexivity.
+Qed.
+
+Lemma lead_extend u k : (forall n, k <= n -> u n = false) ->
+  forall m g, m <= g -> lead u (k + m) g = m + lead u k (g - m).
+Proof.
+  intros Z. induction m as [|m IH]; intros g L.
+  - rewrite Nat.add_0_r, Nat.sub_0_r. reflexivity.
+  - destruct g as [|g]; [lia|]. replace (k + S m) with (S (k + m)) by lia. simpl.
+    rewrite Z by lia. rewrite IH by lia. reflexivity.
+Qed.
+
+Lemma lead_full u : forall g k n, lead u k g = g -> n < k -> u n = true -> n + g < k.
+Proof.
+  induction g as [|g IH]; intros k n H L U; [lia|].
+  destruct k as [|k]; simpl in H; [discriminate|]. destruct (u k) eqn:UK; [discriminate|].
+  inversion H as [H']. assert (n <> k) by congruence. assert (n + g < k); [|lia]. apply (IH k n); auto. lia.
+Qed.
+
+Lemma lead_ext u u' : (forall n, u' n = true -> u n = true) -> forall g k, lead u k g = g -> lead u' k g = g.
+Proof.
+  intros M. induction g as [|g IH]; intros k H; [destruct k; reflexivity|].
+  destruct k as [|k]; simpl in *; [discriminate|]. destruct (u k) eqn:UK; [discriminate|].
+  destruct (u' k) eqn:UK'. apply M in UK'. congruence. f_equal. apply IH. congruence.
+Qed.
+
+Definition chain_ok (s : state) (c : N) : Prop :=
+  lead (fun n => used s (W c n)) (nget (kcs s) c) (nget (gaps s) c) = nget (gaps s) c.
+
+Record GInv (s : state) : Prop := mkGInv {
+  g_known_pend : forall a st, aget (pend s) a = Some st -> known s a = true;
+  g_known_hist : forall a, used s a = true -> known s a = true;
+  g_chain : forall c, nget (kcs s) c = 0 \/ chain_ok s c \/ exists n, aget (pend s) (W c n) = Some HistSet
+}.
+
+Lemma used_ext s s' a : hists s' = hists s -> used s' a = used s a.
+Proof. intro E. unfold used, get_hist. rewrite E. reflexivity. Qed.
+
+Lemma chain_ok_ext s s' c : hists s' = hists s -> kcs s' = kcs s -> gaps s' = gaps s -> chain_ok s c -> chain_ok s' c.
+Proof.
+  intros A B C. unfold chain_ok. rewrite B, C. intro H. rewrite <- H at 2.
+  f_equal. apply lead_ext with (u := fun n => used s (W c n)); auto.
+  intros n. rewrite (used_ext s s'); auto.
+Qed.
+
+Lemma ensure_gap_chain s c : (forall a, used s a = true -> known s a = true) -> chain_ok (ensure_gap s c) c.
+Proof.
+  intro KH. unfold ensure_gap.
+  destruct (Nat.eqb (lead (fun n => used s (W c n)) (nget (kcs s) c) (nget (gaps s) c)) (nget (gaps s) c)) eqn:E.
+  - apply Nat.eqb_eq in E. exact E.
+  - unfold chain_ok. simpl. rewrite nget_nset_same.
+    set (u := fun n => used s (W c n)). set (k := nget (kcs s) c). set (gp := nget (gaps s) c).
+    set (e := lead u k gp). assert (LE: e <= gp) by apply lead_le.
+    change (lead (fun n => used _ (W c n)) (k + (gp - e)) gp) with (lead u (k + (gp - e)) gp).
+    rewrite lead_extend.
+    + replace (gp - (gp - e)) with e by lia. rewrite (lead_shrink u gp k e); [lia|reflexivity].
+    + intros n L. destruct (u n) eqn:U; auto. unfold u in U. apply KH in U. simpl in U.
+      apply Nat.ltb_lt in U. fold k in U. lia.
+    + lia.
+Qed.
+
+Lemma ensure_gap_other s c c' : c <> c' -> chain_ok s c' -> chain_ok (ensure_gap s c) c'.
+Proof.
+  intros N H. unfold ensure_gap. destruct (Nat.eqb _ _); auto.
+  unfold chain_ok in *. simpl. rewrite nget_nset_other; auto.
+Qed.
+
+Lemma ensure_gap_k0 s c c' : nget (kcs s) c' = 0 -> c <> c' -> nget (kcs (ensure_gap s c)) c' = 0.
+Proof.
+  intros H N. unfold ensure_gap. destruct (Nat.eqb _ _); auto. simpl. rewrite nget_nset_other; auto.
+Qed.
+
+Lemma ginv_ensure_gap s c : GInv s -> GInv (ensure_gap s c).
+Proof.
+  intro G. destruct (ensure_gap_fields s c) as [_ [_ [_ [_ [EH [EP _]]]]]].
+  constructor.
+  - intros a st J. rewrite EP in J. apply known_ensure_gap. eapply g_known_pend; eauto.
+  - intros a U. rewrite (used_ext s) in U; auto. apply known_ensure_gap. apply (g_known_hist s G). exact U.
+  - intro c'. destruct (N.eq_dec c c') as [E|E].
+    + subst. right. left. apply ensure_gap_chain. apply (g_known_hist s G).
+    + destruct (g_chain s G c') as [H|[H|[n H]]].
+      * left. apply ensure_gap_k0; auto.
+      * right. left. apply ensure_gap_other; auto.
+      * right. right. exists n. rewrite EP. exact H.
+Qed.
